@@ -16,7 +16,7 @@ use vpmodel::spec::{mono, BlockSpec, ChainSpec, InSpec, OutSpec, Src, TxSpec};
 pub const C07: PropDef = PropDef {
     id: "C07",
     level: "exploration",
-    rule: "part 'small-histories' (bounded-exhaustive): every history of <=2 non-coinbase transactions over <=2 blocks, each with 1..2 inputs drawn from all outputs created so far (same block included, the same output twice, an outpoint unknown to the range), or being a verbatim duplicate of an earlier transaction (identical txid, also inside one block, also after its outputs were spent), and outputs that do or do not carry an address (quick: one output per tx; thorough: 1..2 outputs per tx, plus all 3-transaction single-block histories), with and without --start 1; part 'random-histories': chains up to 25 blocks and hundreds of transactions with fan-in/fan-out, same-block spends, unknown outpoints, zero values, duplicate coinbases (identical txid), transactions with >255 outputs whose high indices are spent, on all 8 coins with random ranges; part 'large-utxo-set': two histories whose final UTXO set has 70 000 / 131 500 rows and one with a single transaction of 66 000 outputs (indices beyond 16 bits). Oracle: unspent-S-E.csv = header once + exactly the row set of the reference UTXO map (remove inputs, then insert address-bearing outputs, per tx in block order; same outpoint replaces), no duplicates. Non-trivial = at least one in-range spend of an in-range output and at least one address-less output; distinct by history hash.",
+    rule: "part 'small-histories' (bounded-exhaustive): every history of <=2 non-coinbase transactions over <=2 blocks, each with 1..2 inputs drawn from all outputs created so far (same block included, the same output twice, an outpoint unknown to the range), or being a verbatim duplicate of an earlier transaction (identical txid, also inside one block, also after its outputs were spent), and outputs that do or do not carry an address (quick: one output per tx; thorough: 1..2 outputs per tx, plus all 3-transaction single-block histories), with and without --start 1; part 'random-histories': chains up to 25 blocks and hundreds of transactions with fan-in/fan-out, same-block spends, unknown outpoints, zero values, duplicate coinbases (identical txid), transactions with >255 outputs whose high indices are spent, on all 8 coins with random ranges; part 'large-utxo-set': two histories whose final UTXO set has 70 000 / 131 500 rows and one with a single transaction of 66 000 outputs (indices beyond 16 bits). Oracle: unspent-S-E.csv = header once + exactly the row set of the reference UTXO map (remove inputs, then insert address-bearing outputs, per tx in block order; same outpoint replaces), no duplicates. Non-trivial = at least one in-range spend of an in-range output and at least one address-less output; distinct by history hash. A quarter of the random histories sit at base heights up to 2^31 (segment chains).",
     assumptions: &["row order is unspecified (hash-map order): rows are compared as a set"],
     run: run_c07,
     replay: replay_c07,
@@ -25,7 +25,7 @@ pub const C07: PropDef = PropDef {
 pub const C08: PropDef = PropDef {
     id: "C08",
     level: "exploration",
-    rule: "the histories of C07 with a small pool of keys so that addresses recur (many outputs per address, the same key paid as P2PK and P2PKH, addresses emptied and re-funded), values bounded so that sums fit u64 (a fifth of the histories carry 1..3 outputs of 3*10^18..1.6*10^19 units paid to one key, so that 20-digit balances occur); plus two histories with 70 000 / 131 500 unspent outputs over 7 addresses. Oracle 1: balances-S-E.csv = header + exactly one row per address of the reference aggregation (exact u128 sums); oracle 2 (model-free): the per-address aggregation of the unspent-S-E.csv produced by unspentcsvdump on the same directory and range equals the balances file. Non-trivial = some address with >=2 unspent outputs and some address that was funded and is fully spent; distinct by history hash.",
+    rule: "the histories of C07 with a small pool of keys so that addresses recur (many outputs per address, the same key paid as P2PK and P2PKH, addresses emptied and re-funded), values bounded so that sums fit u64 (a fifth of the histories carry 1..3 outputs of 3*10^18..1.6*10^19 units paid to one key, so that 20-digit balances occur); plus two histories with 70 000 / 131 500 unspent outputs over 7 addresses. Oracle 1: balances-S-E.csv = header + exactly one row per address of the reference aggregation (exact u128 sums); oracle 2 (model-free): the per-address aggregation of the unspent-S-E.csv produced by unspentcsvdump on the same directory and range equals the balances file. Non-trivial = some address with >=2 unspent outputs and some address that was funded and is fully spent; distinct by history hash. A quarter of the random histories sit at base heights up to 2^31 (segment chains).",
     assumptions: &["value sums fit u64 (generator bound)", "an address whose unspent outputs are all zero-valued is listed with balance 0, as the statement says"],
     run: run_c08,
     replay: replay_c08,
@@ -109,6 +109,8 @@ pub fn random_strategy(tier: Tier, few_keys: bool) -> BS<Case> {
             // null / half-null outpoints in any input position: a transaction that merely starts with a coinbase-shaped input still spends through its other inputs
             cfg.tx.src = prop_oneof![20 => any::<u16>().prop_map(Src::Known), 4 => (60_000u16..=u16::MAX).prop_map(Src::Known), 2 => (any::<u8>(), 0u32..3).prop_map(|(s, i)| Src::Unknown(s, i)), 2 => Just(Src::Null), 1 => prop_oneof![Just(0u32), Just(0xffff_fffeu32)].prop_map(Src::ZeroTxid), 1 => any::<u8>().prop_map(|s| Src::Unknown(s, 0xffff_ffff))].boxed();
             cfg.time = gen::monotonic_time();
+            // creation heights of up to 10 digits (segment chains; the run then starts at the first indexed height)
+            cfg.base = prop_oneof![6 => Just(0u64).boxed(), 2 => gen::wide_base()].boxed();
             let huge = proptest::option::weighted(0.2, (10_000_000_000_000_000_000u64..=16_000_000_000_000_000_000u64, 1u8..=3, any::<[u16; 3]>(), 0u8..5, any::<u8>()));
             (gen::chain(&cfg), proptest::option::weighted(0.35, any::<u16>()), proptest::option::weighted(0.35, any::<u16>()), huge).prop_map(move |(mut chain, start_sel, end_sel, huge)| {
                 if let Some((total, parts, sel, key, form)) = huge {
